@@ -100,6 +100,62 @@ def setProperties (d : PyDict) : Except PyExc (Bytes × PyDict) :=
   | .error e => .error e
   | .ok text => .ok (text, if containsStr d then asBytesDict (decodeLib text) else d)
 
+/-- `self._properties = properties` (info.py:388-394): when no `str` was involved `.properties` **is** the caller's
+dictionary object (an alias, not a copy).  The model has value semantics, so the alias is this one bit: the harness compares
+it with `info.properties is <the dictionary given>`.  What a later mutation of that object does to `.properties` (it then
+disagrees with `.text`) is outside the model and outside the property, which speaks of the dictionary *given*. -/
+def returnsCallersDict (d : PyDict) : Bool := !containsStr d
+
+/-! ### `str` objects that are not Unicode text
+
+A Python `str` may hold a lone surrogate (U+D800–U+DFFF); it has no UTF-8 form and `key.encode('utf-8')` /
+`str(value).encode('utf-8')` raise `UnicodeEncodeError` in the *first* loop of `_set_properties`, before anything is stored
+and before the `ValueError` of an oversize item (raised in the second loop) can occur. -/
+
+/-- a key or value as the caller gives it -/
+inductive PyObj where
+  | val (v : PyVal)
+  | surrogateStr
+  deriving DecidableEq, Repr
+
+abbrev PyDictRaw := List (PyObj × Option PyObj)
+
+/-- the exceptions of `ServiceInfo(properties=…)` -/
+inductive TxtExc where
+  | unicodeEncodeError
+  | py (e : PyExc)
+  deriving DecidableEq, Repr
+
+def TxtExc.name : TxtExc → String
+  | .unicodeEncodeError => "UnicodeEncodeError"
+  | .py e => e.name
+
+def liftPy {α : Type} : Except PyExc α → Except TxtExc α
+  | .ok r => .ok r
+  | .error e => .error (.py e)
+
+def PyObj.encodable : PyObj → Bool
+  | .val _ => true
+  | .surrogateStr => false
+
+def entryEncodable (e : PyObj × Option PyObj) : Bool :=
+  e.1.encodable && (match e.2 with | some v => v.encodable | none => true)
+
+/-- every `str` of the dictionary is Unicode text -/
+def Encodable (d : PyDictRaw) : Bool := d.all entryEncodable
+
+def PyObj.toVal : PyObj → PyVal
+  | .val v => v
+  | .surrogateStr => .str []
+
+/-- the dictionary of an `Encodable` raw dictionary -/
+def textOf (d : PyDictRaw) : PyDict := d.map (fun e => (e.1.toVal, e.2.map PyObj.toVal))
+
+/-- `ServiceInfo(..., properties=d)` for any `str`/`bytes` dictionary: `UnicodeEncodeError` if some `str` is not text,
+otherwise `setProperties` -/
+def setPropertiesRaw (d : PyDictRaw) : Except TxtExc (Bytes × PyDict) :=
+  if Encodable d then liftPy (setProperties (textOf d)) else .error .unicodeEncodeError
+
 /-- "keys and values as bytes": no `str` anywhere in an observed dictionary -/
 def allBytes (d : PyDict) : Bool := !containsStr d
 
